@@ -46,7 +46,7 @@ class LayoutResolution_contract:
     permissive = True
 
     def args(sh, sym):
-        r, n, el = sh["rank"], sh["n"], sh["bits"] // 8
+        r, n, el = sh["rank"], sh["n"], ((sh["bits"] + 7) // 8)
         bounds = [sym.int(f"B{j}", 1) for j in range(n)]
         params = {}
         if sh["layout"] == "tsl":
@@ -80,7 +80,7 @@ class LayoutResolution_contract:
 
     def ensures(sh, a, ret):
         op, A, bounds, params, x = a
-        el = sh["bits"] // 8
+        el = ((sh["bits"] + 7) // 8)
         rep = [e for e in ret if e[0] == "replace_op"]
         check("replaced once", len(rep) == 1 and rep[0][1] is op)
         ap = [o for o in rep[0][2] if isinstance(o, dart.AccessPatternOp)]
@@ -119,15 +119,17 @@ from snaxc.ir.dart.access_pattern import Template, TemplatePattern  # noqa: E402
 class AccV(SNAXStreamer):
     """view of a registered streamer accelerator: its template and streamers for the op (plumbing: assumed)"""
 
-    def __init__(self, template, streamers):
+    def __init__(self, template, streamers, other_op=None, other_template=None, other_streamers=None):
         SNAXStreamer.__init__(self, StreamerConfiguration(streamers))
         self._template = template
+        # like snax_gemmx, the answer may depend on the OP (i8 vs i32 result: D8 or D32 streamer), not only on its operand count
+        self._other = (other_op, other_template, other_streamers)
 
     def get_template(self, op):
-        return self._template
+        return self._other[1] if self._other[0] is not None and op is self._other[0] else self._template
 
     def get_streamers(self, op):
-        return self.streamer_config.data.streamers
+        return self._other[2] if self._other[0] is not None and op is self._other[0] else self.streamer_config.data.streamers
 
 
 class CtxV:
@@ -153,7 +155,24 @@ def operand_family():
         out.append(dict(name="alu_i64", el=8, tbounds=[4], rows=[[1]], spatial=[4], bcast=False, temporal=tb, total_on=True))
     for tb in ([2], [4, 2]):
         out.append(dict(name="xdma_i32", el=4, tbounds=[16], rows=[[1]], spatial=[8], bcast=False, temporal=tb, total_on=True))
+    # HISTORY: the same pattern object has converted another op of the same accelerator and operand count before, for which
+    # the accelerator selected other streamers (gemmx: an i32 layer through D32 before / after an i8 layer through D8)
+    out.append(dict(name="gemmx_D8_i8_after_D32", el=1, tbounds=[8, 8, 8], rows=[M, N], spatial=[8], bcast=False, temporal=[2, 2, 2], total_on=True, warm=dict(el=4, spatial=[8, 4])))
+    out.append(dict(name="gemmx_D32_i32_after_D8", el=4, tbounds=[8, 8, 8], rows=[M, N], spatial=[8, 4], bcast=False, temporal=[2, 2, 2], total_on=False, warm=dict(el=1, spatial=[8])))
     return out
+
+
+def warm_op_for(sh, tmpl):
+    """a concrete, contiguous row-major-tiled access of the other element size (what precedes the op under contract)"""
+    w = sh["warm"]
+    el = w["el"]
+    # dims: t0, t1, t2, m, n, k ; rows M,N: k irrelevant.  n innermost, then m, then the temporal loops
+    st = [el * 8 * 8 * 4, el * 8 * 8 * 2, 0, el * 8, el, 0]
+    e = AffineConstantExpr(0)
+    for j in range(6):
+        e = e + AffineDimExpr(j) * st[j]
+    op = dart.AccessPatternOp([mk_ident_value(7100, IndexType())], [], ArrayAttr([AffineMapAttr(AffineMap(6, 0, (e,)))]), Region(Block()), [2, 2, 2, 8, 8, 8], "acc")
+    return op, tmpl, [Streamer(StreamerType.Reader, ["n"] * 6, w["spatial"], [])]
 
 
 @contract
@@ -179,14 +198,15 @@ class ConvertStreamToSnaxStream_contract:
         amap = AffineMap(n, 0, (e,))
         rows = sh["rows"]
         tmpl = Template([TemplatePattern(sh["tbounds"], AffineTransform(np.array(rows).reshape(len(rows), ns), np.array([0] * len(rows)).reshape(len(rows))))])
-        acc = AccV(tmpl, [Streamer(StreamerType.Reader, ["n"] * 6, sh["spatial"], [HasBroadcast()] if sh["bcast"] else [])])
+        warm = warm_op_for(sh, tmpl) if sh.get("warm") else (None, None, None)
+        acc = AccV(tmpl, [Streamer(StreamerType.Reader, ["n"] * 6, sh["spatial"], [HasBroadcast()] if sh["bcast"] else [])], warm[0], warm[1], warm[2])
         ptr = mk_ident_value(7000, IndexType())
         op = dart.AccessPatternOp([ptr], [], ArrayAttr([AffineMapAttr(amap)]), Region(Block()), bounds, "acc")
         relevant = [True] * nt + [any(rows[i][j] != 0 for i in range(len(rows))) for j in range(ns)]
-        return [op, acc, strides, bounds, relevant]
+        return [op, acc, strides, bounds, relevant, warm[0]]
 
     def requires(sh, a):
-        op, acc, strides, bounds, relevant = a
+        op, acc, strides, bounds, relevant = a[:5]
         # what set-memory-layout produces: the innermost relevant dimension is contiguous (stride == element size)
         inner = [j for j in range(len(bounds)) if relevant[j]][-1]
         ok = strides[inner] == sh["el"]
@@ -199,7 +219,11 @@ class ConvertStreamToSnaxStream_contract:
     def run(sh, a):
         op, acc = a[0], a[1]
         rw = PatternRewriter(op)
-        d2s.ConvertStreamToSnaxStreamPattern(CtxV(acc)).match_and_rewrite(op, rw)
+        pattern = d2s.ConvertStreamToSnaxStreamPattern(CtxV(acc))
+        if a[5] is not None:
+            # the walker applies ONE pattern object to every op of the module: the other op comes first
+            pattern.match_and_rewrite(a[5], PatternRewriter(a[5]))
+        pattern.match_and_rewrite(op, rw)
         return rw.log
 
     def raises(sh, a, exc):
@@ -207,7 +231,7 @@ class ConvertStreamToSnaxStream_contract:
             check(f"shipped operand shape: the conversion must not reject it ({exc})", exc not in ("NotImplementedError", "StopIteration"))
 
     def ensures(sh, a, ret):
-        op, acc, strides, bounds, relevant = a
+        op, acc, strides, bounds, relevant = a[:5]
         rep = [e for e in ret if e[0] == "replace_op"]
         check("replaced by one streaming region", len(rep) == 1 and rep[0][1] is op and isinstance(rep[0][2][-1], snax_stream.StreamingRegionOp))
         p = rep[0][2][-1].stride_patterns.data[0]
@@ -220,8 +244,10 @@ class ConvertStreamToSnaxStream_contract:
         # element nest, innermost first, in bytes: the element itself, then every relevant schedule dimension
         E = [(1, sh["el"])] + [(strides[j], bounds[j]) for j in reversed(range(n)) if relevant[j]]
         # what the streamer executes: 8 contiguous bytes per port, the spatial ports, then the temporal loops (innermost first)
-        S = [(1, 8)] + [(ss[k], sh["spatial"][k]) for k in range(len(ss))] + [(ts[k], ub[k]) for k in range(len(ub))]
-        if any(u == 0 for u in ub):
+        S = [(1, 8)] + [(ss[k], sh["spatial"][k]) for k in range(min(len(ss), len(sh["spatial"])))] + [(ts[k], ub[k]) for k in range(min(len(ub), len(ts)))]
+        if len(ss) != len(sh["spatial"]) or len(ub) != len(ts):
+            pass  # already reported by the two clauses above; the nest below cannot be formed
+        elif any(u == 0 for u in ub):
             check("no empty stream for a non-empty schedule", False)
         else:
             check("the streamer touches exactly the bytes of the scheduled elements, in order (same_nest)", same_nest(E, S))
